@@ -118,9 +118,19 @@ def run(ctx):
         ctx.violation(key, f"{ln['fns']} NfFF={ln['nfff']} Q2 {ln['cls']} matching scale {ln['i']}: {clause} ({ln['raw']}; "
                       f"expected nf={ob[oid]['nf']})", dict(kind="C06", group=[o for o in obls if o["valid"] and
                       (o["fns"], o["nfff"], o["m"], o["k"]) == (ln["fns"], ln["nfff"], ln["m"], ln["k"])], oid=oid))
+    # the number of flavours INSIDE the coefficient functions (their explicit nf dependence starts at a_s^2, nf^2 at a_s^3): a
+    # flavour-tagged observable on the massless path must use the same number as the total restricted to that quark's couplings
+    # (Theorems.C07_TaggedIsRestricted), on both sides of the next threshold
+    from .. import relcheck
+    insts = relcheck.emit(ctx, ["TaggedIsRestricted"], PROCS={"NC"} if q else {"EM", "NC"}, PROJS={"e-"}, KINDS={"F2"} if q else {"F2", "FL"},
+                          FLAVS={"charm"} if q else {"charm", "bottom"}, SCHEMES={"ZM4", "ZM5"} if q else {"ZM4", "ZM5", "ZM6"}, ORDERS={"33"})
+    relcheck.drive_and_validate(ctx, "C06", insts, extra=dict(xs=[0.23]))
 
 
 def replay(ctx, obj):
+    if obj.get("kind") == "relation":
+        from .. import relcheck
+        return relcheck.replay(ctx, obj)
     lines = execute(dict(obls=obj["group"]))
     bad = ctx.tlc_validate("Trace_C06", "Trace.cfg", [{k: v for k, v in ln.items() if k != "raw"} for ln in lines])
     for ln in lines:
